@@ -286,6 +286,11 @@ def check_error(err) -> tuple[str, str] | None:  # noqa: ANN001
     if m and ty and m.group(1) != ty and type(tok).__name__ in ("Token", "PathToken", "RangeToken", "TemplateStringToken"):
         return ("error-position:points-at-another-token-than-it-names",
                 f"message says found {m.group(1)}, the error's token is {ty} {src[max(tok.start, 0) : max(tok.stop, 0)][:30]!r}")
+    # ... an error about an escape sequence found while scanning points at the escape
+    if str(getattr(err, "message", "") or "") == "invalid escape sequence" and type(tok).__name__ == "ErrorToken" \
+            and 0 <= tok.start <= len(src) and "\\" not in src[max(0, tok.start - 1) : tok.start + 1]:
+        return ("error-position:escape-error-not-at-the-escape",
+                f"'invalid escape sequence' at {tok.start}: {src[max(0, tok.start - 3) : tok.start + 3]!r} has no backslash there")
     # ... and an error about a named tag points at markup that contains that name
     m2 = _re.fullmatch(r"unexpected '(break|continue)'", str(getattr(err, "message", "") or ""))
     if m2 and 0 <= tok.start <= tok.stop <= len(src) and m2.group(1) not in src[tok.start : tok.stop].split("%}")[0]:
@@ -489,6 +494,9 @@ FRAGS = [
     "{{ cafe\u0301 }}", "{% assign e\u0301te\u0301 = cafe\u0301.cre\u0300me | fi\u0301ltre: cle\u0301: 1 %}",
     # loop interrupts where there is no loop, nested in other blocks
     "{% break %}", "{% continue %}",
+    # invalid escapes that are not the first character of their string segment
+    "{{ 'ab\\qcd' }}", "{{ \"x\n  yz\\q\" }}", "{{ a['k\\q'] }}", "{{ 'a${b}cd\\q' }}", "{% assign s = \"two\nlines \\z\" %}",
+    "{{ a[\"kk\\w\"].b }}", "{% liquid echo 'abc\\y' %}", "{{ 'x' | append: 'pq\\k' }}",
     # white space inside brackets, around every kind of selector
     "{{ a[ b ] }}", "{{ a[b.c  ].d }}", "{{ a[b[c] ] }}", "{{ a[ 'k' ] }}{{ a[ 1 ] }}{{ a[\t-1\n] }}", "{% liquid echo a[ b ] %}",
     "{{ (a[ b ]..3) }}", "{{ '${a[ b ]}' }}", "{% for i in a[ b.c ] limit: x[ y ] %}", "{{ a[ b ][ c ] | f: d[ e ] }}", "{{ ( 1 .. a[b] ) }}",
@@ -684,6 +692,7 @@ def floors(tier: str) -> dict[str, int]:
         "node_tokens_checked": 20000 * k,
         "message_linenos_checked": 5000 * k,
         "shorthand_index_sources": 5000 * k,
+        "undefined_position_pairs_with_error": 300 * k,
     }
 
 
@@ -752,6 +761,8 @@ def run_shard(spec: dict[str, Any], ctx: Ctx) -> None:
             r.run(s, {}, {}, render=False)
             rs.run(s, {}, {}, render=False)
             ctx.count("shorthand_index_sources")
+        for _ in range(6 if tier == "quick" else 60):
+            _undefined_positions(r, rng, ctx)
         # complete templates whose ERRORS are raised while rendering
         tpls = {"p": "x\n{% if true %}{% break %}{% endif %}", "q": "{% unless a %}\n\t{% continue %}{% endunless %}"}
         for body in RENDER_ERRORS:
@@ -759,6 +770,83 @@ def run_shard(spec: dict[str, Any], ctx: Ctx) -> None:
                 r.run(pre + body, {"xs": [1, 2]}, tpls, render=True)
                 ctx.count("render_error_sources")
         ctx.sample({"kind": "fragments", "source": s})
+
+
+TOLERATED = [
+    "{{ N | default: 'd' }}", "{% assign z = N | default: 1 %}", "{{ N.p.q | default: 'd' }}", "{% if N %}t{% endif %}",
+    "{% unless N %}u{% endunless %}", "{{ 'a' if N else 'b' }}", "{% case N %}{% when 1 %}w{% endcase %}",
+    "{% for i in N %}{{ i }}{% endfor %}", "{{ N | default: N2 | default: 'e' }}",
+]
+FAILING = ["{{ N }}", "{{ N.p }}", "{{ N | upcase }}", "{% echo N %}", "{{ 'x' | append: N }}", "{% assign y = N | plus: 1 %}",
+           "{% if N == 1 %}e{% endif %}", "{{ N[0] }}", "{% liquid\n  echo N\n%}"]
+MISSING_NAMES = ["nosuch", "absent", "ghosty", "wraith"]  # all six characters long
+
+
+def _undefined_positions(r: Runner, rng: random.Random, ctx: Ctx) -> None:
+    """Where a strict undefined error points must not depend on which OTHER missing name an earlier,
+    tolerated construct used: a template whose tolerated part reads the same missing name as the
+    failing part raises at the same place (class, offset, line, column, token text) as the twin
+    whose tolerated part reads another missing name of the same length."""
+    from liquid2 import FalsyStrictUndefined
+    from liquid2 import StrictUndefined
+
+    pads = ["", " ", "\n", "\n\n  ", "text {# c #}\n", "\r\n\t"]
+    for _ in range(60):
+        und = rng.choice([StrictUndefined, FalsyStrictUndefined])
+        n_tol = rng.randint(1, 3)
+        tol = [rng.choice(TOLERATED) for _ in range(n_tol)]
+        fail = rng.choice(FAILING)
+        name = rng.choice(MISSING_NAMES)
+        other = rng.choice([n for n in MISSING_NAMES if n != name])
+        third = next(n for n in MISSING_NAMES if n not in (name, other))
+        partial = rng.random() < 0.3
+
+        def build(tname: str) -> tuple[str, dict[str, str]]:
+            head = "".join(t.replace("N2", third).replace("N", tname) + rng_pad for t, rng_pad in zip(tol, pad_seq))
+            f = fail.replace("N", name)
+            heads.append(len(head))
+            if partial:
+                return head + "{% include 'part' %}", {"part": "\n " + f}
+            return head + f, {}
+
+        pad_seq = [rng.choice(pads) for _ in tol]
+        heads: list[int] = []
+        results = []
+        for tname in (name, other):
+            src, tpls = build(tname)
+            env = r.Environment(loader=r.DictLoader(tpls), undefined=und)
+            try:
+                env.from_string(src).render()
+                results.append(("ok",))
+            except r.LiquidError as e:
+                tok = e.token
+                c = None
+                try:
+                    c = e.context()
+                except Exception:  # noqa: BLE001
+                    pass
+                tsrc = getattr(tok, "source", "") or ""
+                results.append((type(e).__name__, getattr(tok, "start", None), tsrc[getattr(tok, "start", 0) : getattr(tok, "stop", 0)],
+                                (c[0], c[1]) if c else None, e.template_name))
+                bad = check_error(e)
+                if bad:
+                    ctx.violation(bad[0], bad[1], {"source": src, "templates": tpls, "render": True, "undefined": und.__name__})
+            except Exception:  # noqa: BLE001
+                results.append(("exc",))
+        ctx.ev(2)
+        ctx.count("undefined_position_pairs")
+        in_head = any(len(x) > 1 and not partial and isinstance(x[1], int) and x[1] < heads[0] for x in results) or \
+            any(len(x) > 4 and partial and x[4] != "part" for x in results)
+        if in_head:
+            # the construct meant to be tolerated raised under this policy: nothing to compare
+            ctx.count("undefined_position_pairs_tolerated_part_raised")
+        elif results[0] != results[1] and results[0][0] != "ok" and results[1][0] != "ok":
+            src, tpls = build(name)
+            ctx.violation("error-position:undefined-error-depends-on-an-earlier-tolerated-use",
+                          f"tolerated part reads the same missing name: {results[0]!r}; reads another missing name: {results[1]!r}",
+                          {"source": src, "templates": tpls, "render": True, "undefined": und.__name__, "twin_name": other})
+        elif results[0][0] != "ok":
+            ctx.count("undefined_position_pairs_with_error")
 
 
 def _run_messages(r: Runner, src: str, kinds: dict[str, str]) -> str | None:
